@@ -12,19 +12,19 @@ FUNCTIONS = ["EventManager.add_handler", "EventManager.remove_handler_by_key", "
              "SwitchController._process_active_timed_switches"]
 EXPLANATION = ("Bounded symbolic execution (CrossHair/z3) of the real EventManager on a stub machine. A handler program "
                "(3 handlers on A, 2 on B, 1 on C; each A/B handler has an action: nothing, post B, post C, post B with callback, "
-               "add a handler during dispatch, remove a sibling, re-post A once) is run with symbolic integer priorities and kwargs, "
+               "add a handler during dispatch, remove a sibling, re-post A once, replace itself, run a pending delay now whose callback posts) is run with symbolic integer priorities and kwargs, "
                "posted twice from a given context (direct, loop call_soon, delay callback, timed switch handler). A trace checker "
                "(not a re-implementation of the queue) decides completeness, order, kwargs merging, depth-first nesting and callbacks.")
 NONTRIVIAL_RULE = "at least three event instances were dispatched and at least one handler posted a further event"
-BOUNDS = {"quick": {"events": 3, "handlers": "6 static + <=2 added at run time", "actions": 5, "priorities": "unbounded ints", "posts": "<=12", "contexts": 4},
-          "thorough": {"events": 3, "handlers": "6 static + <=3 added at run time", "actions": 7, "priorities": "unbounded ints", "posts": "<=16", "contexts": 4}}
+BOUNDS = {"quick": {"events": 3, "handlers": "6 static + <=2 added at run time", "actions": 6, "priorities": "unbounded ints", "posts": "<=12", "contexts": 4},
+          "thorough": {"events": 3, "handlers": "6 static + <=3 added at run time", "actions": 9, "priorities": "unbounded ints", "posts": "<=16", "contexts": 4}}
 ASSUMPTIONS = ["equal priorities: any relative order is accepted", "a handler removed before its turn may or may not run (statement leaves it open)",
                "_min_priority/blocking facilities, BCP monitoring and stop() are not exercised",
                "conditions are exercised through a stub condition object whose evaluate() returns a solver bool"]
 BUDGET = {"quick": 100, "thorough": 600}
 
 EV = ["A", "B", "C"]
-ACTIONS = ["none", "post_B", "post_C", "post_B_cb", "add_same", "remove_sibling", "repost_A", "replace_self"]
+ACTIONS = ["none", "post_B", "post_C", "post_B_cb", "add_same", "remove_sibling", "repost_A", "replace_self", "run_now"]
 
 
 class Cond:
@@ -70,6 +70,8 @@ def body(S, loop, part):
     nact = part["nact"]
     while len(acts) < 4:                       # h2 (on A) and h3 (on B) chosen by the solver
         acts.append(S.choice("act%d" % len(acts), nact))
+    dm0 = DelayManager(m)                      # a pending delay whose callback posts C: target of the run_now action
+    ran_now = [0]
     acts += [0, 0]                             # h4 (B), h5 (C): no action
     slot_event = {0: "A", 1: "A", 2: "A", 3: "B", 4: "B", 5: "C"}
     prio = {i: S.int("p%d" % i, -10**6, 10**6) for i in range(5)}
@@ -161,6 +163,10 @@ def body(S, loop, part):
             elif a == "repost_A" and not reposted[0]:
                 reposted[0] = True
                 post("A")
+            elif a == "run_now" and ran_now[0] < 2:
+                ran_now[0] += 1
+                dm0.add(10000, lambda: post("C"), "pend")
+                dm0.run_now("pend")
             elif a == "replace_self":
                 key = em.replace_handler(slot_event[slot], keys[slot][1], priority=prio[slot], **({"v": regv[slot]} if slot in regv else {}))
                 keys[slot] = (key, keys[slot][1])
@@ -295,15 +301,16 @@ def body(S, loop, part):
 
 
 def scenarios(tier):
-    nact = 5 if tier == "quick" else 8
+    nact = 5 if tier == "quick" else 9
+    quick_acts = [0, 1, 3, 4, 5, 8]
     ctxs = ["direct", "loop", "delay", "switch"]
     parts = []
     k = 0
-    for a0 in range(nact):
-        for a1 in range(nact):
+    for a0 in (quick_acts if tier == "quick" else range(nact)):
+        for a1 in (quick_acts if tier == "quick" else range(nact)):
             if tier == "quick":
                 # h2/h3 actions and the context rotate deterministically over the partitions
-                parts.append(dict(acts=[a0, a1, (a0 + 2 * a1 + 1) % nact, (2 * a0 + a1) % nact], nact=nact, ctx=ctxs[k % 4], cb_posts=(k % 3 == 0)))
+                parts.append(dict(acts=[a0, a1, quick_acts[(a0 + 2 * a1 + 1) % 6], quick_acts[(2 * a0 + a1) % 6]], nact=nact, ctx=ctxs[k % 4], cb_posts=(k % 3 == 0)))
                 k += 1
             else:
                 for a2 in range(nact):
